@@ -15,13 +15,16 @@
 package main
 
 import (
+	"bytes"
 	"flag"
 	"fmt"
 	"go/ast"
 	"go/parser"
+	"go/printer"
 	"go/token"
 	"os"
 	"path/filepath"
+	"regexp"
 	"sort"
 	"strconv"
 	"strings"
@@ -780,6 +783,13 @@ func main() {
 
 	var sb strings.Builder
 	sb.WriteString("-- GENERATED by /verif/go/astfacts from the Go source on every run of ./check. Do not edit.\n")
+	if *what == "timer" {
+		sb.WriteString("\nnamespace Raft.Gen\n\n")
+		p.timerFacts(&sb)
+		sb.WriteString("end Raft.Gen\n")
+		write(*out, sb.String())
+		return
+	}
 	if *what == "timing" {
 		sb.WriteString("\nnamespace Raft.Gen\n\n")
 		p.timing(&sb)
@@ -790,7 +800,7 @@ func main() {
 	sb.WriteString("import RaftGen.Chan.Model\n\nnamespace Raft.Gen\nopen Raft.Chan\n\n")
 
 	// fixed channel numbering for the channels the targets use
-	for _, nm := range []string{"leaderUpdateCh", "stopCh", "replUpdateCh", "timer"} {
+	for _, nm := range []string{"leaderUpdateCh", "stopCh", "replUpdateCh", "timer", "fsmRestoredCh", "snapTakenCh"} {
 		chanID(nm)
 	}
 
@@ -888,6 +898,48 @@ func main() {
 		sb.WriteString("]\n\n")
 	}
 
+	for _, nm := range []string{"leaderUpdateCh", "replUpdateCh", "stopCh", "fsmRestoredCh", "snapTakenCh"} {
+		fmt.Fprintf(&sb, "/-- every operation on a channel named `%s` in the package: (function, operation) -/\n", nm)
+		fmt.Fprintf(&sb, "def ops_%s : List (String × String) := [", nm)
+		first := true
+		for _, r := range census {
+			if r.ch != nm {
+				continue
+			}
+			if !first {
+				sb.WriteString(", ")
+			}
+			first = false
+			fmt.Fprintf(&sb, "(%s, %s)", strconv.Quote(r.fn), strconv.Quote(r.op))
+		}
+		sb.WriteString("]\n\n")
+	}
+	// which channel is handed to the fsm goroutine inside a restore request (the field `err` of fsmRestoreReq)
+	var rr []string
+	for _, f := range p.files {
+		ast.Inspect(f, func(n ast.Node) bool {
+			if cl, ok := n.(*ast.CompositeLit); ok {
+				if id, ok := cl.Type.(*ast.Ident); ok && id.Name == "fsmRestoreReq" {
+					for _, e := range cl.Elts {
+						if kv, ok := e.(*ast.KeyValueExpr); ok {
+							e = kv.Value
+						}
+						rr = append(rr, chanName(e))
+					}
+				}
+			}
+			return true
+		})
+	}
+	sb.WriteString("/-- the channel put into every `fsmRestoreReq{…}` literal of the package (the fsm goroutine answers on it: `t.err <- err`) -/\n")
+	sb.WriteString("def restoreReqChans : List String := [")
+	for i, x := range rr {
+		if i > 0 {
+			sb.WriteString(", ")
+		}
+		sb.WriteString(strconv.Quote(x))
+	}
+	sb.WriteString("]\n\n")
 	sb.WriteString("/-- every channel operation of the package: (channel, function, operation) -/\n")
 	sb.WriteString("def census : List (String × String × String) := [\n")
 	for i, r := range census {
@@ -994,4 +1046,140 @@ func (p *pkg) timing(sb *strings.Builder) {
 	fmt.Fprintf(sb, "/-- util.go constants -/\ndef failureWait : Nat := %s\n", p.leanExpr(p.constExpr("failureWait"), nil))
 	fmt.Fprintf(sb, "def maxFailureScale : Nat := %s\n\n", p.leanExpr(p.constExpr("maxFailureScale"), nil))
 
+}
+
+// ---------------------------------------------------------------------------------------------------------------
+// safeTimer protocol facts
+
+var wsRe = regexp.MustCompile(`\s+`)
+
+func (p *pkg) src(n ast.Node) string {
+	var b bytes.Buffer
+	_ = printer.Fprint(&b, p.fset, n)
+	return strings.TrimSpace(wsRe.ReplaceAllString(b.String(), " "))
+}
+
+// timerFacts: every receive from a safeTimer channel (`X.C`, or an alias variable assigned from `X.C`) that is the
+// communication of a select clause or a statement of its own, with whether the statement that follows at once is
+// `X.active = false`; and the source text of safeTimer.stop / reset / newSafeTimer.
+func (p *pkg) timerFacts(sb *strings.Builder) {
+	type site struct {
+		fn, timer string
+		clears    bool
+		line      int
+	}
+	var sites []site
+	keys := make([]string, 0, len(p.funcs))
+	for k := range p.funcs {
+		keys = append(keys, k)
+	}
+	sort.Strings(keys)
+	isTimerChan := func(fd *ast.FuncDecl, e ast.Expr) (string, bool) {
+		switch x := e.(type) {
+		case *ast.SelectorExpr:
+			if x.Sel.Name == "C" {
+				return p.src(x.X), true
+			}
+		case *ast.Ident:
+			// alias: some assignment `x = Y.C` in the same function
+			timer := ""
+			ast.Inspect(fd.Body, func(n ast.Node) bool {
+				if as, ok := n.(*ast.AssignStmt); ok && len(as.Lhs) == 1 && len(as.Rhs) == 1 {
+					if id, ok := as.Lhs[0].(*ast.Ident); ok && id.Name == x.Name {
+						if se, ok := as.Rhs[0].(*ast.SelectorExpr); ok && se.Sel.Name == "C" {
+							timer = p.src(se.X)
+						}
+					}
+				}
+				return true
+			})
+			if timer != "" {
+				return timer, true
+			}
+		}
+		return "", false
+	}
+	clearsActive := func(timer string, st ast.Stmt) bool {
+		as, ok := st.(*ast.AssignStmt)
+		if !ok || len(as.Lhs) != 1 || len(as.Rhs) != 1 {
+			return false
+		}
+		return p.src(as.Lhs[0]) == timer+".active" && p.src(as.Rhs[0]) == "false"
+	}
+	recvOf := func(st ast.Stmt) ast.Expr {
+		switch x := st.(type) {
+		case *ast.ExprStmt:
+			if u, ok := x.X.(*ast.UnaryExpr); ok && u.Op == token.ARROW {
+				return u.X
+			}
+		case *ast.AssignStmt:
+			if len(x.Rhs) == 1 {
+				if u, ok := x.Rhs[0].(*ast.UnaryExpr); ok && u.Op == token.ARROW {
+					return u.X
+				}
+			}
+		}
+		return nil
+	}
+	for _, key := range keys {
+		if strings.HasPrefix(key, "safeTimer.") || key == "newSafeTimer" {
+			continue // the implementation of the protocol itself, given as source text below
+		}
+		fd := p.funcs[key]
+		ast.Inspect(fd.Body, func(n ast.Node) bool {
+			switch x := n.(type) {
+			case *ast.CommClause:
+				if x.Comm == nil {
+					return true
+				}
+				if ch := recvOf(x.Comm); ch != nil {
+					if timer, ok := isTimerChan(fd, ch); ok {
+						sites = append(sites, site{key, timer, len(x.Body) > 0 && clearsActive(timer, x.Body[0]), p.fset.Position(x.Pos()).Line})
+					}
+				}
+			case *ast.BlockStmt:
+				for i, st := range x.List {
+					if ch := recvOf(st); ch != nil {
+						if timer, ok := isTimerChan(fd, ch); ok {
+							sites = append(sites, site{key, timer, i+1 < len(x.List) && clearsActive(timer, x.List[i+1]), p.fset.Position(st.Pos()).Line})
+						}
+					}
+				}
+			}
+			return true
+		})
+	}
+	// is `timer` a safeTimer at all? time.After(...) and plain *time.Timer values have no `active` flag: keep only
+	// receivers whose `.active` field is used somewhere in the package
+	usesActive := map[string]bool{}
+	for _, f := range p.files {
+		ast.Inspect(f, func(n ast.Node) bool {
+			if se, ok := n.(*ast.SelectorExpr); ok && se.Sel.Name == "active" {
+				usesActive[p.src(se.X)] = true
+			}
+			return true
+		})
+	}
+	sb.WriteString("/-- every receive from a safeTimer's channel outside safeTimer itself: (function, timer, is the next statement `timer.active = false`) -/\n")
+	sb.WriteString("def timerRecvSites : List (String × String × Bool) := [\n")
+	first := true
+	for _, s := range sites {
+		if !usesActive[s.timer] {
+			continue
+		}
+		if !first {
+			sb.WriteString(",\n")
+		}
+		first = false
+		fmt.Fprintf(sb, "    (%s, %s, %v)", strconv.Quote(s.fn), strconv.Quote(s.timer), s.clears)
+	}
+	sb.WriteString("\n  ]\n\n")
+	for _, fn := range []struct{ lean, key string }{{"safeTimerStopSrc", "safeTimer.stop"}, {"safeTimerResetSrc", "safeTimer.reset"}, {"newSafeTimerSrc", "newSafeTimer"}} {
+		fd := p.funcs[fn.key]
+		if fd == nil {
+			fmt.Fprintf(os.Stderr, "astfacts: %s not found\n", fn.key)
+			os.Exit(2)
+		}
+		fmt.Fprintf(sb, "/-- the body of `%s`, whitespace normalised -/\ndef %s : String := %s\n\n", fn.key, fn.lean, strconv.Quote(p.src(fd.Body)))
+	}
 }
